@@ -579,7 +579,9 @@ def rule_attrs(repo, rid, modules):
                     if reads == {'self.' + a} and not others:
                         continue
                 readers = []
-                for g in f.cls.methods.values():
+                # the readers are looked for in the whole family of the class: the bases it inherits from and the subclasses that inherit the writer
+                family = [f.cls] + [c for c in repo.mro(f.cls)[1:] if not isinstance(c, str)] + repo.subclasses_of(f.cls)
+                for g in [g for c in family for g in c.methods.values()]:
                     for x in ast.walk(g.node):
                         if isinstance(x, ast.Attribute) and x.attr == a and isinstance(x.ctx, ast.Load) and isinstance(x.value, ast.Name) and x.value.id == 'self':
                             if g is f and x.lineno > w.lineno:
@@ -1119,6 +1121,10 @@ def collab_attr_writes(fnode):
         for t in tgts:
             for x in ([t] if not isinstance(t, ast.Tuple) else t.elts):
                 if isinstance(x, ast.Attribute) and isinstance(x.value, ast.Attribute) and dotted(x.value.value) == 'self':
+                    # `self.system.systime = 0`: a plain literal is a reset of the collaborator to its initial value - what the reset() call of the same function does -
+                    # not a setting that depends on the data of this call
+                    if isinstance(n, ast.Assign) and isinstance(n.value, ast.Constant) and n.value.value in (0, None, False):
+                        continue
                     out.append((n, x))
     return out
 
@@ -1273,6 +1279,50 @@ def rule_tempset(repo, rid, modules):
     return res
 
 
+def stale_snapshots(fnode):
+    """[(snapshot stmt, update stmt, use node, S, X)]: a container literal S = {.. X ..} / [.. X ..] / (.. X ..) captures the CURRENT value of the local X; X is then
+    updated from itself (X = f(X): a composition, an accumulation) and S is used afterwards - with the value X had before the update."""
+    stmts = sorted([n for n in _own_nodes(fnode) if isinstance(n, ast.Assign)], key=lambda n: (n.lineno, n.col_offset))
+    out = []
+    for s1 in stmts:
+        if not (len(s1.targets) == 1 and isinstance(s1.targets[0], ast.Name) and isinstance(s1.value, (ast.Dict, ast.List, ast.Tuple, ast.Set))):
+            continue
+        S = s1.targets[0].id
+        caught = {x.id for x in ast.walk(s1.value) if isinstance(x, ast.Name) and isinstance(x.ctx, ast.Load)}
+        for s2 in stmts:
+            if s2.lineno <= s1.lineno:
+                continue
+            for t in s2.targets:
+                if isinstance(t, ast.Name) and t.id in caught and t.id != S and any(isinstance(x, ast.Name) and x.id == t.id for x in ast.walk(s2.value)):
+                    uses = [x for x in _own_nodes(fnode) if isinstance(x, ast.Name) and x.id == S and isinstance(x.ctx, ast.Load) and x.lineno > s2.lineno]
+                    rebuilt = any(s3.lineno > s2.lineno and any(isinstance(tt, ast.Name) and tt.id == S for tt in s3.targets) and (not uses or s3.lineno <= min(u.lineno for u in uses))
+                                  for s3 in stmts)
+                    if uses and not rebuilt:
+                        out.append((s1, s2, uses[0], S, t.id))
+    return out
+
+
+@guarded
+def rule_snapshot(repo, rid, modules):
+    res = RuleResult(rid, 'a container built from a local (S = {.. X ..}) is not used after X has been updated from itself (X = f(X)): the container holds the value X had when '
+                     'it was built, the update - composition with the carried rotation, an accumulation - never reaches what is handed on', floor=1)
+    n = 0
+    for m in modules:
+        for f in repo.module(m).functions.values():
+            n += 1
+            for s1, s2, use, S, X in stale_snapshots(f.node):
+                res.inst({'function': f.fq, 'snapshot': src(s1)[:40], 'update': src(s2)[:40]}, (f.fq, S, X))
+                res.add(Finding(rid, f, '`%s` is built from `%s` at line %d, `%s` updates `%s` afterwards and `%s` is used at line %d: it still holds the value from before the '
+                                'update (first call / nothing carried: the two coincide)' % (S, X, s1.lineno, src(s2)[:40], X, S, use.lineno), node=s2,
+                                construct='snapshot before update|%s|%s' % (S, X)))
+    res.inst({'functions scanned': n}, 'scan')
+    fx = ast.parse('def f(self, d, last):\n    R = d["Dr"]\n    inp = {"R": R.detach(), "dt": 1}\n    if last is not None:\n        R = last * R\n    return self.g(inp), R\n'
+                   'def g(self, d, last):\n    R = d["Dr"]\n    if last is not None:\n        R = last * R\n    inp = {"R": R.detach()}\n    return self.g(inp), R\n').body
+    if [len(stale_snapshots(x)) for x in fx] != [1, 0]:
+        raise AnalysisError('%s: fixtures no longer classified' % rid)
+    return res
+
+
 # ------------------------------------------------------------------------------------------------ sites read and tabled (2026-09, HEAD e00fd9c)
 EXEMPT_DT = {
     ('pypose.function.geometry:voxel_filter', 'torch.tensor(v0, device=v1.device)'): 'voxel sizes given as a Python list: used as a divisor, type-promoted with the points',
@@ -1305,5 +1355,114 @@ EXEMPT_MODE = {
 def mode_rules(repo, pid, modules):
     from .ipalias import rule_ipalias, rule_lostupdate, rule_storage
     from .unused import rule_unused
+    from .stale import rule_stale_all, rule_firstrep
     return [rule_dtype_mod(repo, pid + '.DTMOD', modules, EXEMPT_DT), rule_mode(repo, pid + '.MODE', modules, EXEMPT_MODE),
-            rule_ipalias(repo, pid + '.IPA', modules), rule_unused(repo, pid + '.UNUSED', modules), rule_cast(repo, pid + '.CAST', modules), rule_api(repo, pid + '.API', modules), rule_lostupdate(repo, pid + '.LOST', modules), rule_guardset(repo, pid + '.GUARDS', modules), rule_rng(repo, pid + '.RNG', modules), rule_attrs(repo, pid + '.ATTRS', modules), rule_argmut(repo, pid + '.ARGMUT', modules), rule_storage(repo, pid + '.STORAGE', modules), rule_hygiene(repo, pid + '.HYGIENE', modules), rule_argattr(repo, pid + '.ARGATTR', modules), rule_sharedstate(repo, pid + '.SHAREDST', modules), rule_globals(repo, pid + '.GLOBALS'), rule_rankcmp(repo, pid + '.RANKCMP', modules), rule_ducklist(repo, pid + '.DUCKLIST', modules), rule_shapeform(repo, pid + '.SHAPEFORM', modules), rule_collabattr(repo, pid + '.COLLAB', modules), rule_shapelit(repo, pid + '.SHAPELIT', modules), rule_tempset(repo, pid + '.TEMPSET', modules)]
+            rule_ipalias(repo, pid + '.IPA', modules), rule_unused(repo, pid + '.UNUSED', modules), rule_cast(repo, pid + '.CAST', modules), rule_api(repo, pid + '.API', modules), rule_lostupdate(repo, pid + '.LOST', modules), rule_guardset(repo, pid + '.GUARDS', modules), rule_rng(repo, pid + '.RNG', modules), rule_attrs(repo, pid + '.ATTRS', modules), rule_argmut(repo, pid + '.ARGMUT', modules), rule_storage(repo, pid + '.STORAGE', modules), rule_hygiene(repo, pid + '.HYGIENE', modules), rule_argattr(repo, pid + '.ARGATTR', modules), rule_sharedstate(repo, pid + '.SHAREDST', modules), rule_globals(repo, pid + '.GLOBALS'), rule_rankcmp(repo, pid + '.RANKCMP', modules), rule_ducklist(repo, pid + '.DUCKLIST', modules), rule_shapeform(repo, pid + '.SHAPEFORM', modules), rule_collabattr(repo, pid + '.COLLAB', modules), rule_shapelit(repo, pid + '.SHAPELIT', modules), rule_tempset(repo, pid + '.TEMPSET', modules), rule_snapshot(repo, pid + '.SNAPSHOT', modules), rule_stale_all(repo, pid + '.STALELOOP', modules), rule_firstrep(repo, pid + '.FIRSTREP', modules), guarded(__import__('sa.masks', fromlist=['x']).rule_safesub)(repo, pid + '.SAFESUB', modules), rule_warnfall(repo, pid + '.WARNFALL', modules), rule_typeid(repo, pid + '.TYPEID', modules)]
+
+
+# ---------------------------------------------------------------- WARNFALL: a problem that is reported and then answered
+
+WARNFALL_TABLE = {                                       # function -> (number of reviewed sites, why)
+    'pypose.lietensor.lietensor:LieType.translation': (1, 'documented: a type without translation returns zeros'),
+    'pypose.lietensor.lietensor:LieType.scale': (1, 'documented: a type without scale returns ones'),
+    'pypose.lietensor.convert:quat2unit': (1, 'documented: a Lie-algebra input is returned as given'),
+}
+
+
+def warn_fallbacks(fnode):
+    """[(warn stmt, substitute stmt)]: `warnings.warn(..)` followed IN THE SAME BLOCK by an assignment or a return - the condition that used to stop the call (or that
+    deserves to) is reported and then answered with a substituted value.  A warning that stands alone in its branch changes no value and is not reported; neither is
+    a deprecation notice (DeprecationWarning / FutureWarning / 'deprecat' in the text)."""
+    out = []
+
+    def blocks(n):
+        for fld in ('body', 'orelse', 'finalbody'):
+            b = getattr(n, fld, None)
+            if isinstance(b, list) and b and isinstance(b[0], ast.stmt):
+                yield b
+        for h in getattr(n, 'handlers', []) or []:
+            yield h.body
+    stack = [fnode]
+    while stack:
+        n = stack.pop()
+        for b in blocks(n):
+            for i, st in enumerate(b):
+                if isinstance(st, (ast.FunctionDef, ast.AsyncFunctionDef, ast.ClassDef)):
+                    continue
+                stack.append(st)
+                if isinstance(st, ast.Expr) and isinstance(st.value, ast.Call) and (dotted(st.value.func) or '').split('.')[-1] == 'warn':
+                    txt = src(st).lower()
+                    if 'deprecat' in txt or 'futurewarning' in txt:
+                        continue
+                    sub = next((s for s in b[i + 1:] if isinstance(s, (ast.Assign, ast.AugAssign, ast.AnnAssign, ast.Return))), None)
+                    if sub is not None:
+                        out.append((st, sub))
+    return out
+
+
+@guarded
+def rule_warnfall(repo, rid, modules):
+    res = RuleResult(rid, 'nothing is reported by a warning and then answered with a substituted value (warn, then an assignment or a return in the same block) beyond the %d '
+                     'documented sites: a condition that stops the call with an error on the pinned tree, or an input outside the contract, is not turned into a result' % len(WARNFALL_TABLE), floor=1)
+    n = 0
+    for m in modules:
+        for f in repo.module(m).functions.values():
+            n += 1
+            hits = warn_fallbacks(f.node)
+            allowed = WARNFALL_TABLE.get(f.fq, (0, None))[0]
+            for k_, (w, sub) in enumerate(hits):
+                res.inst({'function': f.fq, 'warning': src(w)[:60], 'then': src(sub)[:50], 'tabled': WARNFALL_TABLE.get(f.fq)}, (f.fq, k_))
+                if len(hits) > allowed and k_ >= allowed:
+                    res.add(Finding(rid, f, '`%s` is followed by `%s`: the condition is reported and the call goes on with a substituted value instead of stopping' % (
+                        src(w)[:70], src(sub)[:50]), node=w, construct='warn then substitute|%d' % (k_ - allowed)))
+    res.inst({'functions scanned': n}, 'scan')
+    fx = [ast.parse(t).body[0] for t in (
+        "def f(x):\n    if x < 0:\n        warnings.warn('negative')\n        x = abs(x)\n    return x\n",
+        "def f(x):\n    if x < 0:\n        warnings.warn('negative')\n    return x\n")]
+    if [len(warn_fallbacks(x)) for x in fx] != [1, 0]:
+        raise AnalysisError('%s: fixture no longer classified' % rid)
+    return res
+
+
+# ---------------------------------------------------------------- TYPEID: an element's type identified by identity with a module singleton
+
+TYPEID_TABLE = {'pypose.lietensor.convert:quat2unit': (3, 'normalisation helper: group / algebra dispatch on the singleton, documented to pass anything else through')}
+
+
+def ltype_identity_tests(fnode):
+    """[(compare)]: `<element>.ltype == SE3_type` / `is` / `in [SO3_type, ..]` - LieType defines no __eq__, so this is an IDENTITY test against the module-level
+    singleton.  An element restored by copy.deepcopy / pickle / torch.load carries a re-created type object: it behaves like its type everywhere (the methods live on
+    the class) except in such a test, which sends it down the other branch."""
+    out = []
+    for n in _own_nodes(fnode):
+        if isinstance(n, ast.Compare) and len(n.ops) == 1 and isinstance(n.ops[0], (ast.Eq, ast.NotEq, ast.Is, ast.IsNot, ast.In, ast.NotIn)):
+            l, r = n.left, n.comparators[0]
+            for a, b in ((l, r), (r, l)):
+                if isinstance(a, ast.Attribute) and a.attr == 'ltype':
+                    names = [x.id for x in ast.walk(b) if isinstance(x, ast.Name)]
+                    if names and all(x.endswith('_type') or x in ('liegroup', 'liealgebra') for x in names):
+                        out.append(n)
+                        break
+    return out
+
+
+@guarded
+def rule_typeid(repo, rid, modules):
+    res = RuleResult(rid, 'the type of an ELEMENT is not identified by comparing its `.ltype` with a module-level type singleton (identity: LieType has no __eq__) beyond the '
+                     'tabled normalisation helper: elements restored by deepcopy / pickle / torch.load carry a re-created type object', floor=1)
+    n = 0
+    for m in modules:
+        for f in repo.module(m).functions.values():
+            n += 1
+            hits = ltype_identity_tests(f.node)
+            allowed = TYPEID_TABLE.get(f.fq, (0, None))[0]
+            for k_, c in enumerate(hits):
+                res.inst({'function': f.fq, 'test': src(c)[:50], 'tabled': TYPEID_TABLE.get(f.fq)}, (f.fq, k_))
+                if len(hits) > allowed and k_ >= allowed:
+                    res.add(Finding(rid, f, '`%s` identifies the type of an element by identity with the module singleton: an element restored from a snapshot (deepcopy, pickle, '
+                                    'torch.load) has a re-created type object and takes the other branch' % src(c)[:60], node=c, construct='ltype identity test|%d' % (k_ - allowed)))
+    res.inst({'functions scanned': n}, 'scan')
+    fx = ast.parse("def f(X, Y):\n    if isinstance(Y, LieTensor) and Y.ltype == SE3_type:\n        return 1\n    if not Y.ltype.on_manifold:\n        return 2\n").body[0]
+    if len(ltype_identity_tests(fx)) != 1:
+        raise AnalysisError('%s: fixture no longer classified' % rid)
+    return res
